@@ -6,18 +6,16 @@ include/yaclib/fault/detail/fiber/thread_local_proxy.hpp, include/yaclib_std/det
 (scheduler abstraction and conventions as in Model/FiberSync.lean).
 
 Three thread-local pointers are modelled, as a client would declare them:
-  `p`, `q` : `YACLIB_THREAD_LOCAL_PTR(int)`   (indices 0 and 1 of `ThreadLocalPtrProxy<int>`)
-  `l`      : `YACLIB_THREAD_LOCAL_PTR(long)`  (index 0 of `ThreadLocalPtrProxy<long>`)
-The model contains the code as it is:
-  D13  the per-fiber map and the defaults map are keyed by the index alone, and `sNextFreeIndex` is a static member of
-       the class *template*, i.e. one counter per pointee type: `p` and `l` both have index 0 and share one slot;
-  D14  `ThreadLocalPtrProxy::operator=(const ThreadLocalPtrProxy&)` (`q = p` between two thread-local pointers) calls
-       `SetDefault`, i.e. it writes the process-wide default of `q` instead of this fiber's slot: fibers that have not
-       assigned `q` themselves see the value, and a fiber that has does not see its own assignment.
-
-The flag `fixed` switches on the proposed repairs (notes/C18_proposed_patches.diff): one global index counter (`l` gets
-its own slot, never written here) and `Set(GetImpl(other._i), _i)` in the copy assignment.  Not the code; the
-theorems for `fixed = true` show the repairs are sufficient.
+  `p`, `q` : `YACLIB_THREAD_LOCAL_PTR(int)`, `l` : `YACLIB_THREAD_LOCAL_PTR(long)` — indices 0, 1, 2 of the one global counter.
+History: until the fix commit 33c5ab3 the code had
+  D13  the index counter was a static member of the class *template* (one per pointee type) while the per-fiber map and
+       the defaults map are keyed by the index alone: `p` and `l` shared slot 0 — scenario `tls f0=GL,P1,GL f1=GL,G`
+       (`f0 tls_getl -> -1; tls_set 1; tls_getl -> 1`, every schedule);
+  D14  `ThreadLocalPtrProxy::operator=(const ThreadLocalPtrProxy&)` (`q = p`) called `SetDefault`, i.e. wrote the
+       process-wide default of `q`: other fibers saw the value, a fiber that had assigned `q` itself did not see its own
+       copy — scenarios `tls f0=P1,C,GQ,E,GQ f1=GQ,P2,E,GQ` and `tls f0=PQ3,GQ,P1,C,GQ f1=GQ,PQ2,GQ` (every schedule),
+and this model contained them (see git history and notes/C18.md).  It now describes the repaired code:
+`Set(GetImpl(other._i), _i)` in the copy assignment, `l` has its own slot (never written by the modelled operations).
 -/
 import YaclibModel.Model.FiberSync
 
@@ -31,10 +29,9 @@ inductive Pc where
   deriving DecidableEq, Repr
 
 structure State where
-  fixed : Bool                 -- hypothetical: D13, D14 repaired (see header); `false` = the code
   pc : Fid → Pc
   fin : Fid → Bool             -- `FiberBase::_state == Completed` (the thread function returned, `Exit()` ran)
-  slot0 : Fid → Option Nat     -- `_tls[0]` of each fiber (`none` = no entry): shared by `p` and `l` (D13)
+  slot0 : Fid → Option Nat     -- `_tls[0]` of each fiber (`none` = no entry or nullptr): `p`
   slot1 : Fid → Option Nat     -- `_tls[1]`: `q`
   def0 : Option Nat            -- `sDefaults[0]`, `sDefaults[1]` (`none` = nullptr)
   def1 : Option Nat
@@ -42,8 +39,8 @@ structure State where
   -- ghost
   lastQ : Fid → Option (Option Nat)   -- what this fiber itself last assigned to `q` (`none` = never assigned)
 
-def init (fixed : Bool) (n : Nat) : State :=
-  { fixed := fixed, pc := fun g => if g < n then .idle else .done, fin := fun _ => false, slot0 := fun _ => none, slot1 := fun _ => none,
+def init (n : Nat) : State :=
+  { pc := fun g => if g < n then .idle else .done, fin := fun _ => false, slot0 := fun _ => none, slot1 := fun _ => none,
     def0 := none, def1 := none, now := 0, lastQ := fun _ => none }
 
 /-- `FiberBase::GetTLS(i, defaults)`: own entry, else the default -/
@@ -64,14 +61,12 @@ inductive Label where
   | sleepStart (f : Fid) (t d : Nat) | sleepWake (f : Fid) (t : Nat)
   deriving DecidableEq, Repr
 
-/-- D14: `if (Get() == other.Get()) return; SetDefault(GetImpl(other._i), _i);` -/
+/-- `q = p`: `Set(GetImpl(other._i), _i)` — this fiber's slot of `q` -/
 def doCopy (s : State) (f : Fid) : State :=
-  { s with slot1 := if s.fixed then upd s.slot1 f (read0 s f) else s.slot1,
-           def1 := if s.fixed then s.def1 else (if read1 s f = read0 s f then s.def1 else read0 s f),
-           lastQ := upd s.lastQ f (some (read0 s f)) }
+  { s with slot1 := upd s.slot1 f (read0 s f), lastQ := upd s.lastQ f (some (read0 s f)) }
 
-/-- what `l.Get()` returns: slot 0 again (D13), its own never-written slot when repaired -/
-def readL (s : State) (f : Fid) : Option Nat := if s.fixed then none else read0 s f
+/-- what `l.Get()` returns: its own slot (index 2), which no modelled operation writes -/
+def readL (_s : State) (_f : Fid) : Option Nat := none
 
 inductive Step : State → Label → State → Prop where
   | joinStart (s : State) (f k : Fid) (h : s.pc f = .idle) : Step s (.joinStart f k) { s with pc := upd s.pc f (.joining k) }
@@ -89,16 +84,15 @@ inductive Step : State → Label → State → Prop where
       Step s (.setQ f v) { s with slot1 := upd s.slot1 f (some v), lastQ := upd s.lastQ f (some (some v)) }
   | copyQP (s : State) (f : Fid) (h : s.pc f = .idle) : Step s (.copyQP f) (doCopy s f)
   | getQ (s : State) (f : Fid) (h : s.pc f = .idle) : Step s (.getQ f (read1 s f)) s
-  /-- D13: index 0 again -/
   | getL (s : State) (f : Fid) (h : s.pc f = .idle) : Step s (.getL f (readL s f)) s
   | sleepStart (s : State) (f : Fid) (t d : Nat) (h : s.pc f = .idle) (ht : s.now ≤ t) :
       Step s (.sleepStart f t d) { s with pc := upd s.pc f (.sleeping (t + d)), now := t }
   | sleepWake (s : State) (f : Fid) (t dl : Nat) (h : s.pc f = .sleeping dl) (hd : dl ≤ t) (ht : s.now ≤ t) :
       Step s (.sleepWake f t) { s with pc := upd s.pc f .idle, now := t }
 
-inductive Reachable (fixed : Bool) (n : Nat) : State → Prop where
-  | init : Reachable fixed n (init fixed n)
-  | step {s l s'} : Reachable fixed n s → Step s l s' → Reachable fixed n s'
+inductive Reachable (n : Nat) : State → Prop where
+  | init : Reachable n (init n)
+  | step {s l s'} : Reachable n s → Step s l s' → Reachable n s'
 
 def next (s : State) : Label → Option State
   | .joinStart f k => if s.pc f = .idle then some { s with pc := upd s.pc f (.joining k) } else none
